@@ -154,7 +154,8 @@ def run(R, replay=None):
               "names; depth <= 4; extension mix) x target spellings ('.', relative, absolute, trailing slash) x -x pattern sets (default, "
               "directory names, relative paths, globs) x -r on/off x explicit files: discover_files of the real manager vs the Discover "
               "model (os.walk listing and isdir as oracles) and vs the statement; the predicate _is_file_included on (path, pattern) "
-              "pools; non-trivial = every case")
+              "pools; non-trivial = every case"
+              "; config include patterns with a separator; -x plumbing through main() incl. an empty -x next to a .bandit exclude")
     from bandit.core import manager as bman
     base = os.path.join(impl.scratch(), "c11")
     n = 60 if R.tier == "quick" else 1500
